@@ -3438,6 +3438,11 @@ operatorSwitch:
 			c.emit(dropOp)
 			c.emit(newOperationBr(functionFrame.asLabel()))
 		} else {
+			// A cycle of tail calls never grows the stack nor passes a loop header,
+			// so this is the only place where the exit code can be checked.
+			if c.ensureTermination {
+				c.emit(newOperationBuiltinFunctionCheckExitCode())
+			}
 			c.emit(newOperationTailCallReturnCall(index))
 		}
 
@@ -3456,6 +3461,9 @@ operatorSwitch:
 
 		functionFrame := c.controlFrames.functionFrame()
 		dropRange := c.getFrameDropRange(functionFrame, false)
+		if c.ensureTermination {
+			c.emit(newOperationBuiltinFunctionCheckExitCode())
+		}
 		c.emit(newOperationTailCallReturnCallIndirect(typeIndex, tableIndex, dropRange, functionFrame.asLabel()))
 
 		// Return operation is stack-polymorphic, and mark the state as unreachable.
